@@ -233,6 +233,9 @@ def charts(draw, o=None, datamodel='lua'):
                 ht = Trans(targets=tg)
                 if o.content and draw(st.integers(0, 2)) == 2:
                     ht.content = [Log("H" + h.id, ('c', 7))]
+                    if o.faults and draw(st.booleans()):
+                        # failing elements also inside the content of history default transitions
+                        ht.content = draw(exec_blocks(o, vars_, ids, "H" + h.id + "_", 0, 2)) or ht.content
                 h.transitions = [ht]
                 if draw(st.booleans()):
                     s.children.insert(0, h)
@@ -292,6 +295,9 @@ def charts(draw, o=None, datamodel='lua'):
             it = Trans(targets=[t0.id])
             if o.content and draw(st.booleans()):
                 it.content = [Log("I" + s.id, ('c', 9))]
+                if o.faults and draw(st.booleans()):
+                    # ... and of <initial> transitions
+                    it.content = draw(exec_blocks(o, vars_, ids, "I" + s.id + "_", 0, 2)) or it.content
             ini = State('initial', id="i_" + s.id)
             ini.transitions = [it]
             if draw(st.booleans()):
